@@ -211,3 +211,227 @@ Example C12_ex_ether :
   snd (ip_set_next_headers (Ipv6 59 ex_all) 17) = 34525 /\
   snd (ip_set_next_headers (Ipv4 0 0 (mkExts4 None)) 17) = 2048.
 Proof. vm_compute. repeat split; reflexivity. Qed.
+
+(* ================================================================== *)
+(* extension (round 2): decoding ARBITRARY bytes.
+   Reference: ExtChain/WalkSpec.v (slot rule `decide`, framing `frame`, the walk
+   `ref_walk`; termination measure = bytes left) and ExtChain/WalkView.v (what
+   struct / error record / lax result a walk stands for). *)
+From EP Require Import ExtChain.WalkSpec ExtChain.WalkView ExtChain.WalkProofs ExtChain.WriteBack
+  ExtChain.DecodeTotal.
+
+(* Ipv6Extensions::from_slice and from_slice_lax, for EVERY byte string and EVERY first number:
+   - both are the reference walk read through strict_of_walk / lax_of_walk: Ok or Err, never Panic,
+     never OutOfFuel (w_stop <> SFuel; strict_of_walk/lax_of_walk yield Panic/OutOfFuel for no other stop);
+     lax = same struct/number/rest as strict on success, otherwise the headers in front of the fault,
+     the number and bytes at the fault, and the fault (definition of lax_of_walk);
+   - chain_ok: every header is framed by its own length field, goes to the position the slot rule
+     `decide` gives for the number announced by its predecessor, and the walk stops exactly on a
+     non-extension number, on an extension header whose position is filled (DRefilled), on
+     hop-by-hop options not at the start (error) or on a framing fault (error);
+   - the input is consumed ++ rest; the returned number is the first byte of the last header (or `first`);
+   - slot-wise, the struct holds the decode (bytes at the RFC offsets) of the bytes of each position and
+     nothing else; it satisfies the type invariant;
+   - both termination measures: at most 6 headers (free positions, the model's fuel) and at least 8
+     bytes per header (bytes left, the reference walker's fuel). *)
+Theorem C12_from_slice_total : forall first bs, bytes_ok bs ->
+  let w := ref_walk first bs in
+  from_slice first bs = strict_of_walk w /\
+  from_slice_lax first bs = lax_of_walk w /\
+  w_stop w <> SFuel /\
+  chain_ok true [] first bs (w_chain w) (w_next w) (w_rest w) (w_stop w) /\
+  bs = consumed w ++ w_rest w /\
+  last_next first (w_chain w) = Some (w_next w) /\
+  slotwise (struct_of_chain (w_chain w)) (w_chain w) /\
+  exts6_valid (struct_of_chain (w_chain w)) = true /\
+  len (w_chain w) <= 6 /\ 8 * len (w_chain w) <= len (consumed w).
+Proof. exact from_slice_total. Qed.
+Print Assumptions C12_from_slice_total.
+
+(* the same without the reference: no Panic / OutOfFuel; lax agrees with strict on success and
+   carries strict's error otherwise *)
+Theorem C12_from_slice_lax_total : forall first bs, bytes_ok bs ->
+  match from_slice first bs with
+  | Ok (e, n, rest) => from_slice_lax first bs = Ok (e, n, rest, None)
+  | Err x => exists e n rest l, from_slice_lax first bs = Ok (e, n, rest, Some (x, l))
+  | Panic | OutOfFuel => False
+  end.
+Proof. exact from_slice_never_panics. Qed.
+Print Assumptions C12_from_slice_lax_total.
+
+(* the slot rule the decoders implement, case by case (n: announced number, seen: positions filled) *)
+Theorem C12_slot_rule : forall seen n,
+  (decide false seen n = DNonExt <-> is_ext_number n = false) /\
+  (decide false seen n = DHopNotAtStart <-> n = 0 /\ false = false) /\
+  (decide false seen n = DRefilled ->
+     (n = 60 /\ (has KRouting seen = true /\ has KFinalDestOpts seen = true
+                 \/ has KRouting seen = false /\ has KDestOpts seen = true)) \/
+     (n = 43 /\ has KRouting seen = true) \/ (n = 44 /\ has KFragment seen = true) \/
+     (n = 51 /\ has KAuth seen = true)) /\
+  (forall k, decide false seen n = DTake k ->
+     (k = KDestOpts /\ n = 60 /\ has KRouting seen = false /\ has KDestOpts seen = false) \/
+     (k = KFinalDestOpts /\ n = 60 /\ has KRouting seen = true /\ has KFinalDestOpts seen = false) \/
+     (k = KRouting /\ n = 43 /\ has KRouting seen = false) \/
+     (k = KFragment /\ n = 44 /\ has KFragment seen = false) \/
+     (k = KAuth /\ n = 51 /\ has KAuth seen = false)).
+Proof.
+  exact (fun seen n => conj (decide_nonext false seen n) (conj (decide_hop false seen n)
+           (conj (decide_refilled false seen n) (fun k => decide_take_loop seen n k)))).
+Qed.
+Print Assumptions C12_slot_rule.
+
+(* decode then write: on every accepted byte string (also when the decoder stopped in front of a
+   repeated header) `write` of the decoded struct with the same first number re-emits the consumed
+   bytes with the reserved fields cleared (WalkView.normalise: fragment header byte 1 := 0 and
+   byte 3 := byte 3 & 0xF9, authentication header bytes 2-3 := 0; everything else verbatim), and
+   `next_header` walks to the returned number *)
+Theorem C12_decode_any_then_write : forall first bs e n rest, bytes_ok bs ->
+  from_slice first bs = Ok (e, n, rest) ->
+  let w := ref_walk first bs in
+  e = struct_of_chain (w_chain w) /\ n = w_next w /\ rest = w_rest w /\
+  bs = consumed w ++ rest /\
+  write e first = (normalised (w_chain w), Ok tt) /\
+  next_header e first = Ok n /\
+  len (normalised (w_chain w)) = len (consumed w).
+Proof. exact decode_any_then_write. Qed.
+Print Assumptions C12_decode_any_then_write.
+
+(* Ipv4Extensions *)
+Theorem C12_v4_from_slice_total : forall first bs, bytes_ok bs ->
+  let w := ref_walk4 first bs in
+  from_slice4 first bs = strict4_of_walk w /\
+  from_slice_lax4 first bs = lax4_of_walk w /\
+  w_stop w <> SFuel /\
+  bs = consumed w ++ w_rest w /\
+  last_next first (w_chain w) = Some (w_next w) /\
+  exts4_valid (struct4_of_chain (w_chain w)) = true.
+Proof. exact from_slice4_total. Qed.
+Print Assumptions C12_v4_from_slice_total.
+
+Theorem C12_v4_decode_any_then_write : forall first bs e n rest, bytes_ok bs ->
+  from_slice4 first bs = Ok (e, n, rest) ->
+  let w := ref_walk4 first bs in
+  e = struct4_of_chain (w_chain w) /\ n = w_next w /\ rest = w_rest w /\
+  bs = consumed w ++ rest /\
+  write4 e first = (normalised (w_chain w), Ok tt) /\
+  next_header4 e first = Ok n.
+Proof. exact decode_any_then_write4. Qed.
+Print Assumptions C12_v4_decode_any_then_write.
+
+(* non-vacuity: hop-by-hop, destination options, routing (16 bytes), final destination options, fragment
+   header with reserved byte 0xAA and reserved bits set (0x37), authentication header with reserved
+   bytes 0xBB 0xCC, then a SECOND routing header: the decoder stops in front of it (SRefilled) *)
+Definition ex_wire : bytes :=
+  [60;0;1;2;3;4;5;6] ++ [43;0;7;7;7;7;7;7] ++ [60;1;9;9;9;9;9;9;9;9;9;9;9;9;9;9] ++ [44;0;8;8;8;8;8;8]
+  ++ [51;170;18;55;1;2;3;4] ++ [43;1;187;204;0;0;0;5;0;0;0;6] ++ [17;0;1;1;1;1;1;1] ++ [255;254].
+
+Example C12_ex_walk :
+  bytes_ok ex_wire /\
+  let w := ref_walk 0 ex_wire in
+  map fst (w_chain w) = [KHopByHop; KDestOpts; KRouting; KFinalDestOpts; KFragment; KAuth] /\
+  w_stop w = SRefilled /\ w_next w = 43 /\ len (w_rest w) = 10 /\ len (consumed w) = 60 /\
+  (let e := struct_of_chain (w_chain w) in
+     from_slice 0 ex_wire = Ok (e, 43, w_rest w) /\ from_slice_lax 0 ex_wire = Ok (e, 43, w_rest w, None) /\
+     fragment e = Some (mkFrag 51 582 true 16909060) /\
+     write e 0 = (normalised (w_chain w), Ok tt) /\ next_header e 0 = Ok 43) /\
+  normalised (w_chain w) <> consumed w /\
+  drop 32 (take 52 (normalised (w_chain w))) = [44;0;8;8;8;8;8;8] ++ [51;0;18;49;1;2;3;4] ++ [43;1;0;0].
+Proof.
+  split; [apply bytes_okb_spec; vm_compute; reflexivity|].
+  vm_compute. repeat split; try reflexivity; discriminate.
+Qed.
+
+(* faults: a destination options header cut one byte short; hop-by-hop options behind a fragment header;
+   AH with payload length 0.  The lax decoder keeps the headers in front of the fault. *)
+Example C12_ex_faults :
+  from_slice 60 ([44;1;0;0;0;0;0;0] ++ [0;0;0;0;0;0;0]) = Err (HLen (mkLenError 16 15 LIpv6ExtHeader 0)) /\
+  from_slice 44 ([60;0;0;1;0;0;0;9] ++ [17;2;0;0;0;0;0;0;0;0])
+    = Err (HLen (mkLenError 24 10 LIpv6ExtHeader 8)) /\
+  from_slice_lax 44 ([60;0;0;1;0;0;0;9] ++ [17;2;0;0;0;0;0;0;0;0])
+    = Ok (mkExts6 None None None (Some (mkFrag 60 0 true 9)) None, 60, [17;2;0;0;0;0;0;0;0;0],
+          Some (HLen (mkLenError 24 10 LIpv6ExtHeader 8), LIpv6DestOptionsHeader)) /\
+  from_slice 44 ([0;0;0;0;0;0;0;9] ++ [17;0;0;0;0;0;0;0]) = Err HHopByHopNotAtStart /\
+  from_slice 51 [17;0;0;0;0;0;0;1;0;0;0;2] = Err HIpAuthZeroPayloadLen /\
+  w_stop (ref_walk 44 ([60;0;0;1;0;0;0;9] ++ [17;2;0;0;0;0;0;0;0;0])) = SFault KDestOpts (FLen 24) /\
+  from_slice4 51 [6;1;9;9;0;0;0;1;0;0;0;2;77] = Ok (mkExts4 (Some (mkAuth 6 1 2 0 [])), 6, [77]) /\
+  write4 (mkExts4 (Some (mkAuth 6 1 2 0 []))) 51 = ([6;1;0;0;0;0;0;1;0;0;0;2], Ok tt).
+Proof. vm_compute. repeat split; reflexivity. Qed.
+
+(* ================================================================== *)
+(* extension (round 2): the reader-based decoders Ipv6Extensions::{read, read_limited} and
+   Ipv4Extensions::{read, read_limited} (ExtChain/ReadModel.v, value-carrying; reader and
+   LimitedReader are C16's: IoFault/Spec.v fsource, IoFault/Model.v io_read_exact / limrd).
+   Reader state: mk_st d c p m = the bytes d still to come, at most c >= 1 per read call, p bytes
+   delivered so far, m = MPlain (read) | MLim r (read_limited); `m_ok d m`: the LimitedReader's
+   budget does not exceed the data ("the input holds the chain"); `view d m`: the bytes the decoder
+   can see (all of d, or the budget's prefix). *)
+From EP Require Import IoFault.Spec IoFault.Model ExtChain.ReadModel ExtChain.ReadView ExtChain.ReadProofs.
+
+(* whenever from_slice accepts the visible bytes, read / read_limited return the same struct and the
+   same number, have consumed exactly the bytes from_slice consumed (k = len consumed), and what the
+   reader can still deliver is from_slice's rest *)
+Theorem C12_read_eq_from_slice : forall d c p m first e n rest, 1 <= c -> bytes_ok d -> m_ok d m ->
+  from_slice first (view d m) = Ok (e, n, rest) ->
+  exists m' k, view d m = take k (view d m) ++ rest /\ k <= avail d m /\
+    read6 (lim_of m) first (mk_st d c p m) = (QOk (e, n), mk_st (drop k d) c (p + k) m') /\
+    view (drop k d) m' = rest /\ m_ok (drop k d) m' /\ lim_of m' = lim_of m.
+Proof. exact read6_eq_from_slice. Qed.
+Print Assumptions C12_read_eq_from_slice.
+
+(* every answer of read / read_limited is the reference walk's over the visible bytes: same stop
+   rule, same content errors; a framing fault is UnexpectedEof on a plain reader and the
+   LimitedReader's LenError (required: ReadView.lim_required, len = bytes left, layer, offset) otherwise *)
+Theorem C12_read_walk : forall d c p m first, 1 <= c -> bytes_ok d -> m_ok d m ->
+  fst (read6 (lim_of m) first (mk_st d c p m)) = read_of_walk m (ref_walk first (view d m)).
+Proof. exact (fun d c p m first Hc OK Hok => proj1 (read6_walk d c p m first Hc OK Hok)). Qed.
+Print Assumptions C12_read_walk.
+
+(* never an impossible index (QBad), a usize underflow in the LimitedReader (QUnderflow) or fuel exhaustion *)
+Theorem C12_read_total : forall d c p m first, 1 <= c -> bytes_ok d -> m_ok d m ->
+  match fst (read6 (lim_of m) first (mk_st d c p m)) with
+  | QOk _ | QIo KEof | QLen _ | QContent CHopNotAtStart | QContent CAuthZeroLen => True
+  | _ => False
+  end.
+Proof. exact read6_regular. Qed.
+Print Assumptions C12_read_total.
+
+(* Ipv6Extensions::read(&mut Cursor::new(bs), first) *)
+Theorem C12_read_cursor : forall first bs e n rest, bytes_ok bs ->
+  from_slice first bs = Ok (e, n, rest) ->
+  exists s', read6 false first (mk_rstate (cursor bs) None) = (QOk (e, n), mk_rstate s' None) /\
+             src_data s' = rest /\ src_pulled s' + len rest = len bs.
+Proof. exact read6_cursor. Qed.
+Print Assumptions C12_read_cursor.
+
+Theorem C12_v4_read_eq_from_slice : forall d c p m first e n rest, 1 <= c -> bytes_ok d -> m_ok d m ->
+  from_slice4 first (view d m) = Ok (e, n, rest) ->
+  exists m' k, view d m = take k (view d m) ++ rest /\ k <= avail d m /\
+    read4 (lim_of m) first (mk_st d c p m) = (QOk (e, n), mk_st (drop k d) c (p + k) m') /\
+    view (drop k d) m' = rest /\ m_ok (drop k d) m' /\ lim_of m' = lim_of m.
+Proof. exact read4_eq_from_slice. Qed.
+Print Assumptions C12_v4_read_eq_from_slice.
+
+Theorem C12_v4_read_walk : forall d c p m first, 1 <= c -> bytes_ok d -> m_ok d m ->
+  fst (read4 (lim_of m) first (mk_st d c p m)) = read4_of_walk m (ref_walk4 first (view d m)).
+Proof. exact (fun d c p m first Hc OK Hok => proj1 (read4_walk d c p m first Hc OK Hok)). Qed.
+Print Assumptions C12_v4_read_walk.
+
+(* non-vacuity: ex_wire through a Cursor (chunks of 3 bytes per read call) and through LimitedReaders
+   with a budget of exactly the six headers (60: Ok, stops on the number 43 with nothing left), of one
+   byte less (59: the authentication header does not fit: LenError required 12, len 11, layer 5 = IpAuthHeader,
+   offset 40 + 48) and of 63 (the second routing header is announced but not read: Ok) *)
+Example C12_ex_read :
+  let e := struct_of_chain (w_chain (ref_walk 0 ex_wire)) in
+  m_ok ex_wire (MLim (lr_new 60 LS_IPV6_PAYLOAD 40 L_IPV6H)) /\
+  read6 false 0 (mk_st ex_wire 3 0 MPlain) = (QOk (e, 43), mk_st (drop 60 ex_wire) 3 60 MPlain) /\
+  fst (read6 true 0 (mk_st ex_wire 3 0 (MLim (lr_new 60 LS_IPV6_PAYLOAD 40 L_IPV6H)))) = QOk (e, 43) /\
+  fst (read6 true 0 (mk_st ex_wire 3 0 (MLim (lr_new 63 LS_IPV6_PAYLOAD 40 L_IPV6H)))) = QOk (e, 43) /\
+  fst (read6 true 0 (mk_st ex_wire 3 0 (MLim (lr_new 59 LS_IPV6_PAYLOAD 40 L_IPV6H))))
+    = QLen (mk_lenerr 12 11 LS_IPV6_PAYLOAD L_AUTH 88) /\
+  fst (read6 false 0 (mk_st (take 59 ex_wire) 3 0 MPlain)) = QIo KEof /\
+  fst (read6 false 44 (mk_st ([0;0;0;0;0;0;0;9] ++ [17;0;0;0;0;0;0;0]) 1 0 MPlain)) = QContent CHopNotAtStart /\
+  fst (read4 false 51 (mk_st [6;1;9;9;0;0;0;1;0;0;0;2;77] 5 0 MPlain)) = QOk (mkExts4 (Some (mkAuth 6 1 2 0 [])), 6).
+Proof.
+  cbv zeta. split; [vm_compute; split; discriminate|].
+  vm_compute. repeat split; reflexivity.
+Qed.
